@@ -2,6 +2,11 @@
 //!
 //! Case line: `<id> cfg=<config YAML> src=<XML text> fund=<ledger text put before the import output, or ~>`
 //! Output   : `<id> import=<I> printed=<enc text> proc=<P>`      (I, P as in c16.rs)
+//!
+//! `xmlnode` (the serde schema) is a private module, so okane's XML decoding is reached through
+//! `import::import(.., Format::IsoCamt053, ..)` only; the model side (`drv c18`, `Model/Xml.lean` +
+//! `Model/ImportCamtXml.lean`) reads the same `src` text. A decode error shows as `import=(err XML)`, a panic
+//! inside quick-xml (DOCTYPE inside the root element) as `import=(panic ..)`.
 use std::io::{BufRead, Write};
 
 use okane::import::Format;
